@@ -36,9 +36,13 @@ pub fn generate(check: &str, tier: &str, seed: u64, run: u64) -> Case {
     let thorough = tier == "thorough";
     match check {
         "C02" | "C03" => {
-            let big = thorough && rng.chance(1, 3);
-            let pr = litmus_profile(&mut rng, big);
-            let program = gen_litmus(&mut rng, &pr);
+            let program = if rng.chance(2, 5) {
+                gen_litmus_template(&mut rng)
+            } else {
+                let big = thorough && rng.chance(1, 3);
+                let pr = litmus_profile(&mut rng, big);
+                gen_litmus(&mut rng, &pr)
+            };
             let mut config = Config::default();
             config.iter_cap = if thorough { 60_000 } else { 12_000 };
             Case { program, config }
